@@ -15,6 +15,9 @@ EXPLANATION = (
     "option declared with add_argument is read and reaches the constructor keyword / method argument of the "
     "public API it corresponds to (table keyed by CLI flag and API keyword); an option that may be None does not "
     "reach a membership test. Y4: both scripts normalise --top_module_namespaces by the same statements. "
+    "Y7: wrap_submodule and wrap write what wrap_file returned on every path to a normal exit (must-pass-through over the "
+    "statement structure), to the file named after the initialiser - the main file declares and calls every initialiser "
+    "unconditionally, so a part that is skipped leaves an undefined reference. "
     "Linking and importing the combined module is not decided.")
 ASSUMPTIONS = ["argparse semantics: nargs='*' without default yields None when the option is absent",
                "cmake/PybindWrap.cmake names a submodule's output <stem>.cpp (NAME_WLE), matching wrap_submodule"]
@@ -27,6 +30,7 @@ def run(ctx, rep):
     rep.run(RC.rule_source_list_unfiltered, ctx, rep, "Y3")
     rep.run(RC.rule_sibling_scripts, ctx, rep, "Y4")
     rep.run(RC.rule_namespace_normal_form, ctx, rep, "Y6")
+    rep.run(RC.rule_every_part_is_written, ctx, rep, "Y7")
     # Y5: the entry points leave the lists they are given (sources, ignore list, namespaces) as they were
     rep.run(RA.rule_mutate_only_fresh, ctx, rep, "Y5", "gtwrap/pybind_wrapper", {}, min_sites=3)
     rep.run(RF.rule_locals_defined, ctx, rep, "U1", packages=("scripts/", "gtwrap/pybind_wrapper.py", "gtwrap/matlab_wrapper"), min_functions=3)
